@@ -13,8 +13,10 @@ debug build panics (`debug = true`) and wrap where the release build wraps.
 * `bumpAllocAligned` — `bumpallocator.rs::alloc` (identical: `immix_allocator.rs::alloc` on
   `bump_pointer`, `overflow_alloc` on `large_bump_pointer`).
 * `acquireBlockSize`, `acquireBlock` — `bumpallocator.rs::acquire_block` (non-stress branch) after a
-  successful `space.acquire`: `block_size = (size + BLOCK_MASK) & !BLOCK_MASK`,
-  `set_limit(start, start + block_size)`, `self.alloc(size, align, offset)`.
+  successful `space.acquire`, THIS tree: `aligned_size = get_maximum_aligned_size(size, align)`,
+  `block_size = (aligned_size + BLOCK_MASK) & !BLOCK_MASK`, `set_limit(start, start + block_size)`,
+  `self.alloc(size, align, offset)`.  `acquireBlockSizeOld`, `acquireBlockOld` — the same function in
+  the pinned tree (`block_size = (size + BLOCK_MASK) & !BLOCK_MASK`, defect `gc:bump-align-leak`).
 * `losPages`, `losResult`, `losAllocFull` — `large_object_allocator.rs::alloc_slow_once` + `alloc`.
   `losPagesNoSlack` is the variant a seeded regression used (`bytes_to_pages_up(size)`).
 * `cellAllocAligned` — `free_list_allocator.rs::alloc` / `alloc_slow_once` after `block_alloc`:
@@ -59,12 +61,15 @@ def roundUpMask (debug : Bool) (mask size : Nat) : Option Nat :=
   | none => none
   | some s => some (s &&& wnot mask)
 
-/-- `let block_size = (size + BLOCK_MASK) & (!BLOCK_MASK);` -/
-def acquireBlockSize (debug : Bool) (size : Nat) : Option Nat := roundUpMask debug bumpBlockMask size
+/-! ### `acquire_block` — the pinned tree (`…Old`, before the repair of `gc:bump-align-leak`) -/
 
-/-- `acquire_block` for a block mask `mask` (generic so that proofs never compute with the literal):
-`block_size = (size + mask) & !mask; set_limit(start, start + block_size); self.alloc(size, align, offset)` -/
-def acquireBlockWith (vm : VMConsts) (debug : Bool) (mask size align offset start : Nat) : Outcome :=
+/-- PINNED TREE: `let block_size = (size + BLOCK_MASK) & (!BLOCK_MASK);` — no alignment slack -/
+def acquireBlockSizeOld (debug : Bool) (size : Nat) : Option Nat := roundUpMask debug bumpBlockMask size
+
+/-- PINNED TREE `acquire_block` for a block mask `mask` (generic so that proofs never compute with the
+literal): `block_size = (size + mask) & !mask; set_limit(start, start + block_size);
+self.alloc(size, align, offset)` -/
+def acquireBlockWithOld (vm : VMConsts) (debug : Bool) (mask size align offset start : Nat) : Outcome :=
   match roundUpMask debug mask size with
   | none => .panic
   | some blockSize =>
@@ -72,10 +77,41 @@ def acquireBlockWith (vm : VMConsts) (debug : Bool) (mask size align offset star
     | none => .panic
     | some lim => bumpAllocAligned vm debug ⟨start, lim⟩ size align offset
 
-/-- `acquire_block(size, align, offset, stress_test = false)` once `space.acquire` has returned the
-non-zero address `start`: `set_limit(start, start + block_size); self.alloc(size, align, offset)`.
-`slow` = the request did not fit the block that was acquired *for it*: `alloc` calls `alloc_slow`
-again, which acquires (and abandons) another block. -/
+/-- PINNED TREE `acquire_block(size, align, offset, stress_test = false)` once `space.acquire` has
+returned the non-zero address `start`.  `slow` = the request did not fit the block that was acquired
+*for it*: `alloc` calls `alloc_slow` again, which acquires (and abandons) another block — defect
+`gc:bump-align-leak`, see `bump_align_leak` in Props/C03Algo.lean. -/
+def acquireBlockOld (vm : VMConsts) (debug : Bool) (size align offset start : Nat) : Outcome :=
+  acquireBlockWithOld vm debug bumpBlockMask size align offset start
+
+/-! ### `acquire_block` — this tree (repaired) -/
+
+/-- ```
+let aligned_size = get_maximum_aligned_size::<VM>(size, align);
+let block_size = (aligned_size + mask) & (!mask);
+```
+`none` = an assertion of `get_maximum_aligned_size` fired or a checked add overflowed (debug). -/
+def acquireBlockSizeWith (vm : VMConsts) (debug : Bool) (mask size align : Nat) : Option Nat :=
+  match maxAlignedSize vm debug size align vm.minAlign with
+  | none => none
+  | some alignedSize => roundUpMask debug mask alignedSize
+
+/-- `block_size` of `BumpAllocator::acquire_block` (`mask = BLOCK_MASK`) -/
+def acquireBlockSize (vm : VMConsts) (debug : Bool) (size align : Nat) : Option Nat :=
+  acquireBlockSizeWith vm debug bumpBlockMask size align
+
+/-- `acquire_block` for a block mask `mask`: the block is sized for the worst-case aligned size;
+then `set_limit(start, start + block_size); self.alloc(size, align, offset)` -/
+def acquireBlockWith (vm : VMConsts) (debug : Bool) (mask size align offset start : Nat) : Outcome :=
+  match acquireBlockSizeWith vm debug mask size align with
+  | none => .panic
+  | some blockSize =>
+    match cadd debug start blockSize with
+    | none => .panic
+    | some lim => bumpAllocAligned vm debug ⟨start, lim⟩ size align offset
+
+/-- `acquire_block(size, align, offset, stress_test = false)` of THIS tree once `space.acquire` has
+returned the non-zero address `start` -/
 def acquireBlock (vm : VMConsts) (debug : Bool) (size align offset start : Nat) : Outcome :=
   acquireBlockWith vm debug bumpBlockMask size align offset start
 
